@@ -432,6 +432,15 @@ func init() {
 			w.EnvCreate(t)
 			w.c19Pass("template-source-item", shape, "tm", KOT("t1"))
 		}
+		// the API server rejects the cache-label patch on a source that exists outside the dynamic cache
+		for _, shape := range []string{"patchRejected", "patchAccepted"} {
+			w.Reset("shape-source-patch-" + shape)
+			w.EnvCreate(cmWith("src-a", "a", "v"))
+			w.Store.RejectNames = map[string]bool{"src-a": shape == "patchRejected"}
+			w.EnvCreate(newObjectTemplate("ok"))
+			w.c19Pass("template-source-patch", shape, "tm", KOT("t1"))
+			w.Store.RejectNames = map[string]bool{}
+		}
 		// ObjectTemplate output shapes
 		for shape, tmpl := range map[string]string{"notYAML": "{{ \"{{{{\" }} : : :", "notAMap": "- a\n- b\n", "noKind": "apiVersion: v1\nmetadata:\n  name: x\n",
 			"emptyOutput": "", "scalar": "42", "badTemplate": "{{ .config.a | nosuch }}", "noName": "apiVersion: v1\nkind: ConfigMap\n"} {
